@@ -133,39 +133,44 @@ func makeRuns(r *vlib.PRNG, k, raceRuns int) []runDesc {
 
 func pick(r *vlib.PRNG, xs ...int) int { return xs[r.Intn(len(xs))] }
 
-// shipped multi-kernel workloads at small, known-good sizes (acceptance sizes
-// or smaller), all on the gcn3 / r9nano timing platform.
+// shipped multi-kernel workloads at small sizes (acceptance sizes or near
+// them) that still put several wavefronts on every compute unit, all on the
+// gcn3 / r9nano timing platform.
 func shippedCase(r *vlib.PRNG, which int) (string, map[string]int) {
-	switch which % 14 {
+	switch which % 16 {
 	case 0:
-		return "kmeans", map[string]int{"points": pick(r, 128, 256, 512), "features": pick(r, 8, 16, 32), "clusters": pick(r, 3, 5), "max_iter": pick(r, 3, 4, 5)}
+		return "kmeans", map[string]int{"points": pick(r, 512, 1024), "features": 8, "clusters": pick(r, 3, 5), "max_iter": pick(r, 2, 3)}
 	case 1:
-		n := pick(r, 32, 64)
+		n := pick(r, 64, 128)
 		return "pagerank", map[string]int{"node": n, "connections": n * n / pick(r, 2, 4), "iterations": pick(r, 2, 3, 4)}
 	case 2:
-		return "stencil2d", map[string]int{"row": 64, "col": 64, "iter": pick(r, 2, 3, 5)}
+		return "stencil2d", map[string]int{"row": pick(r, 64, 128), "col": pick(r, 64, 128), "iter": pick(r, 2, 3, 5)}
 	case 3:
-		return "fir", map[string]int{"length": pick(r, 1024, 2048, 4096), "taps": 16}
+		return "fir", map[string]int{"length": pick(r, 4096, 8192, 16384), "taps": 16}
 	case 4:
 		return "nw", map[string]int{"length": pick(r, 64, 128)}
 	case 5:
-		return "fft", map[string]int{"bytes": pick(r, 32768, 65536), "passes": pick(r, 2, 3)}
+		return "fft", map[string]int{"bytes": pick(r, 65536, 131072), "passes": 2}
 	case 6:
-		return "bitonicsort", map[string]int{"length": pick(r, 128, 256, 512)}
+		return "bitonicsort", map[string]int{"length": pick(r, 512, 1024)}
 	case 7:
-		return "floydwarshall", map[string]int{"node": pick(r, 16, 32)}
+		return "floydwarshall", map[string]int{"node": pick(r, 24, 32)}
 	case 8:
-		return "nbody", map[string]int{"particles": pick(r, 128, 256), "iter": pick(r, 2, 3, 4)}
+		return "nbody", map[string]int{"particles": pick(r, 256, 512), "iter": pick(r, 2, 3)}
 	case 9:
-		return "fastwalshtransform", map[string]int{"length": pick(r, 512, 1024, 2048)}
+		return "fastwalshtransform", map[string]int{"length": pick(r, 2048, 4096)}
 	case 10:
-		return "atax", map[string]int{"x": pick(r, 64, 128), "y": pick(r, 64, 128)}
+		return "atax", map[string]int{"x": 128, "y": pick(r, 64, 128)}
 	case 11:
-		return "bicg", map[string]int{"x": pick(r, 64, 128), "y": pick(r, 64, 128)}
+		return "bicg", map[string]int{"x": 128, "y": pick(r, 64, 128)}
 	case 12:
-		return "aes", map[string]int{"length": pick(r, 2048, 4096, 8192)}
+		return "aes", map[string]int{"length": pick(r, 4096, 8192, 16384)}
+	case 13:
+		return "matrixtranspose", map[string]int{"width": pick(r, 64, 128, 256)}
+	case 14:
+		return "matrixmultiplication", map[string]int{"x": 64, "y": 64, "z": 64}
 	default:
-		return "spmv", map[string]int{"dim": pick(r, 128, 256), "sparsity_permille": pick(r, 10, 20)}
+		return "spmv", map[string]int{"dim": pick(r, 256, 512), "sparsity_permille": pick(r, 10, 20)}
 	}
 }
 
@@ -175,7 +180,7 @@ func genCase(r *vlib.PRNG, round, slot int) caseDesc {
 	switch slot {
 	case 0: // amd/tests/deterministic/empty_kernel, launched several times
 		c.Workload = "emptykernel"
-		c.Params = map[string]int{"launches": r.Range(10, 24), "num_wg": pick(r, 1, 4, 16, 64), "wf_per_wg": pick(r, 1, 2, 4)}
+		c.Params = map[string]int{"launches": r.Range(10, 24), "num_wg": pick(r, 16, 64, 256), "wf_per_wg": pick(r, 1, 2, 4)}
 		if r.Chance(1, 3) {
 			c.GPUs = []int{1, 2}
 		}
@@ -186,20 +191,21 @@ func genCase(r *vlib.PRNG, round, slot int) caseDesc {
 			c.GPUs = []int{2}
 		}
 	case 2: // shipped multi-kernel workload, one GPU
-		c.Workload, c.Params = shippedCase(r, round*5+r.Intn(14))
-	case 3: // shipped multi-kernel workload on the two-GPU platform
-		c.Workload, c.Params = shippedCase(r, []int{0, 3, 2, 10, 11, 12, 1, 9}[(round+r.Intn(8))%8])
+		c.Workload, c.Params = shippedCase(r, round*3+r.Intn(16))
+	case 3: // shipped multi-kernel workload with one queue per GPU on the two-GPU platform
+		c.Workload, c.Params = shippedCase(r, []int{0, 3, 9, 10, 11, 12, 13, 0}[(round+r.Intn(8))%8])
 		c.GPUs = []int{1, 2}
-	case 4: // generated chain of many tiny kernels
+	case 4: // generated program of many tiny kernels
 		c.Workload = "tinykernels"
-		c.Params = map[string]int{"kernels": r.Range(24, 72), "elems": pick(r, 64, 128, 256, 512), "seed": r.Intn(1 << 20)}
-		if r.Bool() {
+		c.Params = map[string]int{"kernels": r.Range(24, 42), "elems": pick(r, 128, 256, 512), "big_elems": pick(r, 8192, 16384),
+			"concurrent": r.Range(6, 10), "seed": r.Intn(1 << 20)}
+		if round%2 == 0 {
 			c.GPUs = []int{1, 2}
 		}
 	case 5: // mi300a (cdna3 code object)
 		c.Workload = "vectoradd"
 		c.GPUType, c.Arch = "mi300a", "cdna3"
-		c.Params = map[string]int{"width": pick(r, 2048, 4096, 8192), "height": 1}
+		c.Params = map[string]int{"width": pick(r, 8192, 16384), "height": 1}
 		if r.Chance(1, 3) {
 			c.GPUs, c.Unified = []int{1, 2}, true
 		}
@@ -656,6 +662,17 @@ func parentMain() {
 			c.Sample(map[string]any{"case": cr.Case, "runs": rs})
 		}
 	}
+	var runList []map[string]any
+	for ci, cr := range all {
+		for _, rr := range recs[ci] {
+			r := rr.Job.Run
+			runList = append(runList, map[string]any{"case": cr.Case.Name, "family": r.Family, "delays": r.Delays, "gomaxprocs": r.GOMAXPROCS,
+				"taskset_cpus": r.CPUs, "gogc": r.GOGC, "race_build": r.Race, "completed": rr.OK, "wall_s": math.Round(rr.Dur*10) / 10,
+				"handoffs": rr.Res.Handoffs, "metric_rows": rr.NumRows, "quiescent": rr.Res.Quiescent,
+				"injections_into_running_engine": rr.Res.NonQuiescent, "end_time": ftime(rr.Res.TimeEndBits)})
+		}
+	}
+	c.Set("runs", runList)
 	c.Set("handoff_finding_observables_differing", j.handoffObserved)
 	c.Set("time_derived_rule", "a metric is time-derived iff its unit is 'second' or 'cycles/inst'; units 'count' and 'bytes' (and anything else, and the set of rows) are functional")
 
